@@ -45,3 +45,19 @@ CHECKS["C21"] = dict(
     level_text="Random search over filters and pod states on both back ends against an independent reference; both directions (dropped and extra nodes) are decided.",
     level_note="Trusted: rapid, the reference selection; the observed set is what the resource manager was asked about (every selected node has unlimited capacity for an empty request).",
     design_ref="DESIGN.md §4 C21", assumptions=WORLD_ASSUME)
+
+CHECKS["C13"] = dict(
+    pkg="cluster", tests=[T("TestC13", 150, 40000, shrinktime="60s")], level="exploration",
+    technique="property-based testing (rapid) on the un-mocked world with both metadata stores; an observer runs Store.GetDeployStatus at every intercepted step of a really concurrent deployment while no store/plugin/engine call is in flight (history invariant), plus a post-condition on counts and raw processing keys",
+    rule="generated setup (45% Redis store on miniredis), a prior deployment of the same application entrypoint, then the observed deployment (all strategies/filters/resources), 60% with one injected engine/store/WAL failure at the k-th call of a class; invariant at every observation and node: recorded <= status <= prior + planned (planned = the count core passes to CreateProcessing); afterwards status == recorded and no /processing key exists (raw etcd prefix read / miniredis KEYS). Non-trivial = >= 5 observations with a marker present and (an instance failed or >= 2 messages); distinct by hash of the case",
+    level_text="Random deployments observed at every step boundary of the real concurrent code, on both back ends; the schedule between steps is the Go scheduler's.",
+    level_note="Trusted: rapid, the interception RW-lock that makes an observation atomic w.r.t. intercepted calls, the raw store used by the observer.",
+    design_ref="DESIGN.md §3.2, §4 C13", assumptions=WORLD_ASSUME)
+
+CHECKS["C14"] = dict(
+    pkg="cluster", tests=[T("TestC14", 50, 16000, shards=32, shrinktime="90s")], level="fault_enumeration",
+    technique="crash-point enumeration driven by rapid: the deployment is recorded fault-free, the world restored, and re-run with the old instance frozen at a recorded step (before it takes effect, or after it took effect but before the caller sees the result); leases revoked, a new Calcium on the same store/WAL file/engine runs DisasterRecover; oracle on store, engine and usage",
+    rule="generated setup, optional prefix, one deployment (1-4 nodes, 1-4 instances, all strategies), crash position drawn from the recorded steps plus 'after the last step' (thorough: 20% of the cases iterate every position in both flavours). After recovery: usage == sum of workloads on every node, no /processing key, every new recorded workload has a running container, pre-existing workloads/containers untouched, unrecorded containers only where the dying instance had created one without having logged it. Non-trivial = crash strictly between the first allocation and the last commit; distinct by hash of the case",
+    level_text="Every externally visible step of the recorded deployment is a candidate crash point, in two flavours; sampled in quick, enumerated for a fifth of the cases in thorough. Crash = no further effect of the old process; torn writes inside etcd/bbolt are out of scope.",
+    level_note="Trusted: rapid, the freeze (parked goroutines), lease revocation as the model of 'restart after the lock TTL', bbolt/etcd durability. A test process runs a bounded number of crash cases (frozen goroutines are leaked on purpose).",
+    design_ref="DESIGN.md §3.2, §4 C14", assumptions=WORLD_ASSUME + ["the old instance's locks and sessions are gone when recovery runs (all etcd leases revoked)"])
